@@ -253,8 +253,9 @@ pub fn parse_root_adt<R: Read + Seek>(
     ) {
         if let Some(chunks) = discovery.get_chunks(ChunkId::MTXF) {
             if let Some(chunk_info) = chunks.first() {
-                reader.seek(SeekFrom::Start(chunk_info.offset + 8))?;
-                Some(MtxfChunk::read_le(reader)?)
+                // These chunks are arrays that run to the end of their chunk, not of the file
+                let mut payload = chunk_payload(reader, chunk_info.offset, chunk_info.size)?;
+                Some(MtxfChunk::read_le(&mut payload)?)
             } else {
                 None
             }
@@ -285,8 +286,9 @@ pub fn parse_root_adt<R: Read + Seek>(
     let texture_params = if matches!(version, AdtVersion::MoP) {
         if let Some(chunks) = discovery.get_chunks(ChunkId::MTXP) {
             if let Some(chunk_info) = chunks.first() {
-                reader.seek(SeekFrom::Start(chunk_info.offset + 8))?;
-                Some(MtxpChunk::read_le(reader)?)
+                // These chunks are arrays that run to the end of their chunk, not of the file
+                let mut payload = chunk_payload(reader, chunk_info.offset, chunk_info.size)?;
+                Some(MtxpChunk::read_le(&mut payload)?)
             } else {
                 None
             }
@@ -301,8 +303,9 @@ pub fn parse_root_adt<R: Read + Seek>(
     let blend_mesh_headers = if matches!(version, AdtVersion::MoP) {
         if let Some(chunks) = discovery.get_chunks(ChunkId::MBMH) {
             if let Some(chunk_info) = chunks.first() {
-                reader.seek(SeekFrom::Start(chunk_info.offset + 8))?;
-                Some(MbmhChunk::read_le(reader)?)
+                // These chunks are arrays that run to the end of their chunk, not of the file
+                let mut payload = chunk_payload(reader, chunk_info.offset, chunk_info.size)?;
+                Some(MbmhChunk::read_le(&mut payload)?)
             } else {
                 None
             }
@@ -317,8 +320,9 @@ pub fn parse_root_adt<R: Read + Seek>(
     let blend_mesh_bounds = if matches!(version, AdtVersion::MoP) {
         if let Some(chunks) = discovery.get_chunks(ChunkId::MBBB) {
             if let Some(chunk_info) = chunks.first() {
-                reader.seek(SeekFrom::Start(chunk_info.offset + 8))?;
-                Some(MbbbChunk::read_le(reader)?)
+                // These chunks are arrays that run to the end of their chunk, not of the file
+                let mut payload = chunk_payload(reader, chunk_info.offset, chunk_info.size)?;
+                Some(MbbbChunk::read_le(&mut payload)?)
             } else {
                 None
             }
@@ -333,8 +337,9 @@ pub fn parse_root_adt<R: Read + Seek>(
     let blend_mesh_vertices = if matches!(version, AdtVersion::MoP) {
         if let Some(chunks) = discovery.get_chunks(ChunkId::MBNV) {
             if let Some(chunk_info) = chunks.first() {
-                reader.seek(SeekFrom::Start(chunk_info.offset + 8))?;
-                Some(MbnvChunk::read_le(reader)?)
+                // These chunks are arrays that run to the end of their chunk, not of the file
+                let mut payload = chunk_payload(reader, chunk_info.offset, chunk_info.size)?;
+                Some(MbnvChunk::read_le(&mut payload)?)
             } else {
                 None
             }
@@ -349,8 +354,9 @@ pub fn parse_root_adt<R: Read + Seek>(
     let blend_mesh_indices = if matches!(version, AdtVersion::MoP) {
         if let Some(chunks) = discovery.get_chunks(ChunkId::MBMI) {
             if let Some(chunk_info) = chunks.first() {
-                reader.seek(SeekFrom::Start(chunk_info.offset + 8))?;
-                Some(MbmiChunk::read_le(reader)?)
+                // These chunks are arrays that run to the end of their chunk, not of the file
+                let mut payload = chunk_payload(reader, chunk_info.offset, chunk_info.size)?;
+                Some(MbmiChunk::read_le(&mut payload)?)
             } else {
                 None
             }
@@ -385,6 +391,22 @@ pub fn parse_root_adt<R: Read + Seek>(
     };
 
     Ok((root, warnings))
+}
+
+/// Read the payload of a chunk (header at `offset`, `size` payload bytes) into a cursor of
+/// its own, so that a parser that reads "until the end" stops at the end of the chunk.
+fn chunk_payload<R: Read + Seek>(
+    reader: &mut R,
+    offset: u64,
+    size: u32,
+) -> Result<std::io::Cursor<Vec<u8>>> {
+    let end = reader.seek(SeekFrom::End(0))?;
+    let start = offset + 8;
+    let len = u64::from(size).min(end.saturating_sub(start));
+    reader.seek(SeekFrom::Start(start))?;
+    let mut data = vec![0u8; len as usize];
+    reader.read_exact(&mut data)?;
+    Ok(std::io::Cursor::new(data))
 }
 
 /// Parse MH2O chunk with full 256-header structure.
